@@ -35,6 +35,10 @@ def model_value(model, var):
         return Fraction(v.as_long())
     if z3.is_bv_value(v):
         return v.as_long()
+    if z3.is_fp(v):
+        import struct
+        bits = model.eval(z3.fpToIEEEBV(v), model_completion=True).as_long()
+        return struct.unpack(">d", bits.to_bytes(8, "big"))[0].hex()
     raise ValueError(f"unsupported model value {v}")
 
 
@@ -113,6 +117,12 @@ class Engine:
         if name not in self.inputs:
             self.inputs[name] = z3.BitVec(name, width)
         return SymBV(self.inputs[name], width)
+
+    def f64(self, name):
+        from .values import SymF64
+        if name not in self.inputs:
+            self.inputs[name] = z3.FP(name, z3.Float64())
+        return SymF64(self.inputs[name])
 
     def integer(self, name):
         if name not in self.inputs:
@@ -276,6 +286,60 @@ class Engine:
                 slack_used = True
         self.obligations.append(Obligation(name, "violated", self._path_index, model=vals, info=info,
                                            slack_model=slack_used))
+        return "violated"
+
+    def prove_external(self, name, claim, timeout_s=150, info=None, binary="cvc5"):
+        """Discharge a floating-point obligation with the cvc5 binary (SMT-LIB2 export of assumptions ∧ path ∧ ¬claim).
+        unsat -> proved, sat -> violated with the model's float inputs, anything else -> unknown (inconclusive)."""
+        import os
+        import re
+        import shutil
+        import struct
+        import subprocess
+        import tempfile
+        from .values import bterm
+        t0 = time.time()
+        self._sync()
+        exe = shutil.which(binary)
+        if exe is None:
+            self.stats["unknown"] += 1
+            self.obligations.append(Obligation(name, "unknown", self._path_index, info=dict(info or {}, why=f"{binary} not on PATH")))
+            return "unknown"
+        s = z3.Solver()
+        for a in self.solver.assertions():
+            s.add(a)
+        s.add(z3.Not(bterm(claim)))
+        text = "(set-logic QF_FP)\n" + s.to_smt2().replace("(check-sat)", "(check-sat)\n(get-model)")
+        fd, path = tempfile.mkstemp(suffix=".smt2", prefix="symx_")
+        os.write(fd, text.encode())
+        os.close(fd)
+        self.stats["queries"] += 1
+        try:
+            p = subprocess.run([exe, "--produce-models", path], capture_output=True, text=True, timeout=timeout_s)
+            outp = p.stdout
+        except subprocess.TimeoutExpired:
+            outp = "timeout"
+        finally:
+            os.unlink(path)
+            self.stats["solver_s"] += time.time() - t0
+            self.ob_times.append((time.time() - t0, name))
+        first = outp.strip().splitlines()[0] if outp.strip() else ""
+        if "(error" in outp:
+            first = "error"
+        if first == "unsat":
+            self.obligations.append(Obligation(name, "proved", self._path_index, info=info))
+            return "proved"
+        if first != "sat":
+            self.stats["unknown"] += 1
+            self.obligations.append(Obligation(name, "unknown", self._path_index, info=dict(info or {}, why=first[:40])))
+            return "unknown"
+        vals = {}
+        for m in re.finditer(r"\(define-fun\s+(\S+)\s+\(\)\s+\(_ FloatingPoint 11 53\)\s+\(fp #b([01]) #b([01]{11}) #b([01]{52})\)\)", outp):
+            bits = int(m.group(2) + m.group(3) + m.group(4), 2)
+            vals[m.group(1)] = struct.unpack(">d", bits.to_bytes(8, "big"))[0].hex()
+        model = {k: vals.get(k, "0x0.0p+0") for k in self.inputs}
+        model["__choices__"] = list(self.choices)
+        self.obligations.append(Obligation(name, "violated", self._path_index, model=model, info=info))
         return "violated"
 
     def witness(self):
